@@ -356,6 +356,13 @@ func (cs *clientStream) SendMsg(m interface{}) error {
 	}
 
 	cs.wErr = writeProtoMessage(cs.w, cs.codec, m, false)
+	if cs.wErr != nil {
+		if done, _ := cs.readErrorIfDone(); done {
+			// the stream completed while we were writing: like above, that
+			// is reported as EOF (the pipe's own error says nothing useful)
+			return io.EOF
+		}
+	}
 	return cs.wErr
 }
 
